@@ -57,6 +57,7 @@ func (p *Path) recordSend(ch string, v Val) {
 
 func (p *Path) recordRecv(ch string) {
 	p.chanSet(ch, "recvs", tInt, fmt.Sprintf("(+ %s 1)", p.chanGet(ch, "recvs", tInt)))
+	p.setGhost("recvSeq", tInt, fmt.Sprintf("(+ %s 1)", p.getGhost("recvSeq", tInt)))
 }
 
 func (p *Path) selectInstr(i *ssa.Select) Val {
@@ -108,6 +109,8 @@ func (p *Path) selectInstr(i *ssa.Select) Val {
 			hn := fx.env.memHeap(tInt)
 			a := p.chanField(ch, "recvs")
 			p.setHeap(hn, fmt.Sprintf("(ite %s (store %s %s (+ (select %s %s) 1)) %s)", chosen, p.heap(hn), a, p.heap(hn), a, p.heap(hn)))
+			rs := p.ghostAddr("recvSeq")
+			p.setHeap(hn, fmt.Sprintf("(ite %s (store %s %s (+ (select %s %s) 1)) %s)", chosen, p.heap(hn), rs, p.heap(hn), rs, p.heap(hn)))
 		}
 	}
 	// results: index, recvOk, received values
